@@ -46,7 +46,7 @@ def csv_market(rng, assets, d0, d1, exact, late=None, holes=None, adjust=None):
                 if k == 2:
                     rows[-1][3] = None
         out[a.replace('EQ:', '')] = rows
-    return {'kind': 'csv', 'assets': out, 'adjust': bool(adjust)}
+    return {'kind': 'csv', 'assets': out, 'adjust': bool(adjust), 'file_order': rng.choice([None, None, 'desc', 'scrambled'])}
 
 
 def future_rewrite(rng, market, T, mode):
@@ -151,6 +151,10 @@ class C07(Prop):
                     # interior business days missing from one asset's file (the engine still has events then)
                     a = rng.choice(c['assets'])
                     holes = {a: set(rng.sample(inner, min(len(inner), rng.randint(1, 3))))}
+                    if len(inner) > 12 and rng.random() < 0.4:
+                        # a suspension: more than a week without a bar for this asset
+                        k0 = rng.randint(0, len(inner) - 9)
+                        holes = {a: set(inner[k0:k0 + rng.randint(7, 9)])}
                     c['_hole_T'] = rng.choice(sorted(holes[a]))
                     if rng.random() < 0.4:
                         # a market holiday: NO asset has a bar that day; the cut falls on the business day before it
